@@ -2,6 +2,7 @@ package p_distlock
 
 import (
 	"context"
+	"errors"
 	"fmt"
 	"runtime"
 
@@ -30,7 +31,27 @@ type StressCase struct {
 	Kinds     [][]int `json:"kinds"`   // per worker, per round: acquire kind
 	Yields    [][]int `json:"yields"`
 	Redis     bool    `json:"redis,omitempty"` // storage = the Redis backend over an own miniredis server
+	// FailEvery > 0: every FailEvery-th Create call of the storage is lost (a transient error, nothing applied): attempts fail
+	// after they took the Locker's local token and must give it back cleanly (no Lock() kinds in such a case: Lock panics on
+	// a storage error by design)
+	FailEvery int `json:"fail_every,omitempty"`
 }
+
+type lossyCreate struct {
+	kvs.Storage
+	n     atomic.Int64
+	every int64
+	off   atomic.Bool
+}
+
+func (l *lossyCreate) Create(ctx context.Context, r kvs.Record) (string, error) {
+	if !l.off.Load() && l.n.Add(1)%l.every == 0 {
+		return "", errInjectedCreate
+	}
+	return l.Storage.Create(ctx, r)
+}
+
+var errInjectedCreate = errors.New("injected: the Create request was lost")
 
 func runStress(c StressCase) *vstat.Violation {
 	resetTimers()
@@ -45,6 +66,11 @@ func runStress(c StressCase) *vstat.Violation {
 		rs := kvredis.New(&goredis.Options{Addr: m.Addr(), PoolSize: 32})
 		defer rs.(interface{ Close() error }).Close()
 		st = rs
+	}
+	var lossy *lossyCreate
+	if c.FailEvery > 0 {
+		lossy = &lossyCreate{Storage: st, every: int64(c.FailEvery)}
+		st = lossy
 	}
 	var provs []dist.LockProvider
 	for i := 0; i < c.Providers; i++ {
@@ -91,7 +117,7 @@ func runStress(c StressCase) *vstat.Violation {
 					ctx, cancel := context.WithTimeout(context.Background(), 20*time.Second)
 					err := lk.LockWithCtx(ctx)
 					got = err == nil
-					if err != nil && ctx.Err() == nil {
+					if err != nil && ctx.Err() == nil && !(c.FailEvery > 0 && errors.Is(err, errInjectedCreate)) {
 						viol.CompareAndSwap(nil, vstat.V("lockwithctx-error", "worker %d: LockWithCtx with a live context failed: %v", wi, err))
 					}
 					cancel()
@@ -138,7 +164,10 @@ func runStress(c StressCase) *vstat.Violation {
 		}
 	}
 	for i, lk := range lockers {
-		if !lk.TryLock(context.Background()) {
+		if lossy != nil {
+			lossy.off.Store(true) // the storage answers again
+		}
+		if ok := lk.TryLock(context.Background()); !ok {
 			return vstat.V("cannot-reacquire", "every worker has finished and unlocked, but TryLock on locker %d returns false", i)
 		}
 		lk.Unlock()
@@ -180,6 +209,44 @@ func TestC01Stress(t *testing.T) {
 			distinct[l] = true
 		}
 		st.Case(len(distinct) >= 2, vstat.Hash(c), func() any { return c }, "stress_free_running", fmt.Sprintf("stress_workers_%d", len(c.Workers)))
+	})
+}
+
+// TestC04SharedFail: many goroutines share one or two Locker objects and their attempts keep failing in the storage phase
+// (every k-th Create is lost; k = 1: all of them): each failed attempt must give the local token back in a state in which
+// the next goroutine can use it - no panic, nobody stuck, nothing left behind, everybody can acquire afterwards.
+func TestC04SharedFail(t *testing.T) {
+	if !hooksOn {
+		t.Skip("timeout hooks unavailable")
+	}
+	st := vstat.For("C04")
+	rapid.Check(t, func(rt *rapid.T) {
+		c := StressCase{Providers: 1, FailEvery: rapid.SampledFrom([]int{1, 1, 2, 3, 5}).Draw(rt, "failEvery")}
+		nl := rapid.IntRange(1, 2).Draw(rt, "lockers")
+		for i := 0; i < nl; i++ {
+			c.Lockers = append(c.Lockers, 0)
+		}
+		nw := rapid.IntRange(3, 12).Draw(rt, "workers")
+		for i := 0; i < nw; i++ {
+			c.Workers = append(c.Workers, i%nl)
+			nr := rapid.IntRange(20, 200).Draw(rt, "rounds")
+			var ks, ys []int
+			for r := 0; r < nr; r++ {
+				ks = append(ks, rapid.SampledFrom([]int{KLockWithCtx, KLockWithCtx, KLockWithCtx, KTryLock}).Draw(rt, "kind"))
+				ys = append(ys, rapid.IntRange(0, 1).Draw(rt, "yield"))
+			}
+			c.Kinds = append(c.Kinds, ks)
+			c.Yields = append(c.Yields, ys)
+		}
+		v := runStress(c)
+		if v != nil && v.Sig == "stress-stuck" {
+			if v2 := runStress(c); v2 == nil || v2.Sig != "stress-stuck" {
+				st.Inconclusivef("shared-locker case hit its wall-clock budget once: %s", v.Msg)
+				v = v2
+			}
+		}
+		st.Report(rt, "TestC04SharedFail", c, v)
+		st.Case(true, vstat.Hash(c), func() any { return c }, "shared_locker_with_failing_attempts", fmt.Sprintf("shared_locker_create_lost_every:%d", c.FailEvery))
 	})
 }
 
